@@ -42,7 +42,7 @@ def _configs(tier):
                         # dt0 smaller / equal / larger than the checkpoint spacing, cycled over the 240 combinations
                         dt0 = (1, F(1, 4), 4)[j % 3]
                         j += 1
-                        ma = (12 if ctrl == "I_1_2" else 14) if ctrl.startswith("I") else 10
+                        ma = (12 if ctrl == "I_1_2" else 13) if ctrl.startswith("I") else 10
                         plan.append((lay, prof, ctrl, clip, dt0, ma))
     for j, (lay, prof, ctrl, clip, dt0, ma) in enumerate(plan):
         # every other configuration offers error powers far below one, so that the LOWER factor clip is active
@@ -134,7 +134,7 @@ def run(tier: str, seed: int) -> int:
     )
     rng = random.Random(seed)
     cfgs = _configs(tier) + _mode_configs(tier)
-    budget = 120 if tier == "quick" else 1500
+    budget = 120 if tier == "quick" else 500
     action_cov = {}
     results = []
     with cf.ThreadPoolExecutor(max_workers=4) as ex:
